@@ -255,6 +255,27 @@ impl<const K: usize> H<K> {
                 }
                 ev(json!({"ev": "eff", "task": me, "e": e.e, "n": 0, "s": "", "res": "ok"}));
             }
+            "call_peer" | "send_peer" => {
+                let res = match crate::scenario::take_peer(&e.s, &me) {
+                    Some(peer) => {
+                        let n = WORLD.with(|w| {
+                            let mut w = w.borrow_mut();
+                            let n = w.nested.entry(me.clone()).or_insert(0);
+                            *n += 1;
+                            *n
+                        });
+                        let d = Desc { m: (me.clone(), n), scr: vec![], src: "mailbox" };
+                        let ok = {
+                            let addr = peer.addr.as_ref().expect("peer addr");
+                            if e.e == "call_peer" { addr.call(CMsg(d)).await.is_ok() } else { addr.send(SMsg(d)).await.is_ok() }
+                        };
+                        drop(peer);
+                        if ok { "ok" } else { "err" }
+                    }
+                    None => "none",
+                };
+                ev(json!({"ev": "eff", "task": cur_task(), "e": e.e, "n": 0, "s": e.s, "res": res}));
+            }
             "subscribe" => {
                 WORLD.with(|w| *w.borrow_mut().nested.entry(me.clone()).or_insert(0) += 1);
                 let r = match e.n {
